@@ -17,6 +17,7 @@ import (
 // behind each handler, then waits.  Every hand-over from one queued event to
 // the next is a chance to lose a wake-up.
 type BurstCase struct {
+	ViaAny bool `json:"via_any,omitempty"` // events are published through the static type any
 	N        int   `json:"n"`      // events per burst
 	Rounds   int   `json:"rounds"` // bursts (same bus)
 	Handlers []H   `json:"handlers"`
@@ -83,7 +84,7 @@ func runBurst(c *BurstCase, active, handled, published *atomic.Int64) *vkit.Outc
 	id := 0
 	for r := 0; r < c.Rounds; r++ {
 		for k := 0; k < c.N; k++ {
-			eventbus.Publish(bus, Ev{id})
+			pub(bus, nil, Ev{id}, c.ViaAny)
 			published.Add(1)
 			id++
 		}
